@@ -239,6 +239,10 @@ func (its *jsonPrimitive) getTargetFromPatch(path string) (jsonType, string, err
 	if len(paths) < 1 {
 		return nil, "", errors.DatatypeInvalidPatch.New(its.common.L(), "incorrect path: %v", path)
 	}
+	// a JSON pointer escapes '~' as "~0" and '/' as "~1" in every reference token (RFC 6901)
+	for i := range paths {
+		paths[i] = strings.ReplaceAll(strings.ReplaceAll(paths[i], "~1", "/"), "~0", "~")
+	}
 	key := paths[len(paths)-1]
 	paths = paths[1 : len(paths)-1]
 
